@@ -99,6 +99,12 @@ func (s *snmpService) Handle(_ context.Context, conn net.Conn) error {
 		return err
 	}
 
+	// the ASN.1 decoder allocates whatever length an element announces, at any nesting depth,
+	// before looking at the data: a few bytes would be enough to exhaust the memory of the process
+	if err := checkLengths(buf[:n]); err != nil {
+		return err
+	}
+
 	request := Message{}
 	ctx := Asn1Context()
 	remaining, err := ctx.Decode(buf, &request)
@@ -214,4 +220,43 @@ func processPdu(pdu Pdu, next bool, set bool) GetResponsePdu {
 		}
 		return res
 	*/
+}
+
+// checkLengths verifies that every BER element in b, at any depth, fits into what encloses it
+func checkLengths(b []byte) error {
+	for len(b) > 0 {
+		if len(b) < 2 || b[0]&0x1f == 0x1f || b[1] == 0x80 {
+			return fmt.Errorf("malformed or unsupported ASN.1 element")
+		}
+
+		hdr, size := 2, int(b[1])
+
+		if b[1]&0x80 != 0 {
+			k := int(b[1] & 0x7f)
+			if k > 4 || len(b) < 2+k {
+				return fmt.Errorf("malformed or unsupported ASN.1 length")
+			}
+
+			size = 0
+			for _, c := range b[2 : 2+k] {
+				size = size<<8 | int(c)
+			}
+
+			hdr = 2 + k
+		}
+
+		if size > len(b)-hdr {
+			return fmt.Errorf("ASN.1 element of %d bytes exceeds the %d bytes that enclose it", size, len(b)-hdr)
+		}
+
+		if b[0]&0x20 != 0 {
+			if err := checkLengths(b[hdr : hdr+size]); err != nil {
+				return err
+			}
+		}
+
+		b = b[hdr+size:]
+	}
+
+	return nil
 }
